@@ -11,6 +11,9 @@ layout that decide which items a loop visits, into Gallina (coq/Gen/FiltersGen.v
                               perform_final_layout_on_in_flow_children: the condition of the absolute branch
                                                                               -> block_inflow_absolute_branch_cond
                                 (+ a syntactic check that this branch only assigns fields of `item` and never calls `tree`)
+                              compute_preliminary: the hidden-children loop          -> flex_hidden_pass_visits (+ canonical call checked)
+                              perform_absolute_layout_on_absolute_children: the skip test -> flex_absolute_pass_skips
+                              every call on `tree` that addresses a node: where, and to which node (syntactic scan)
   src/compute/grid/mod.rs     compute_grid_layout: closures get_child_styles_iter / in_flow_children_iter
                                                                               -> grid_estimate_children / grid_in_flow_children
 
@@ -537,7 +540,124 @@ def generate(repo):
     for c in find_all(hif[2], lambda n: n[0] == 'mcall' and n[1] == ('path', ['tree']) and n[2] not in PURE_CALLS):
         if c[2] not in ('perform_child_layout', 'set_unrounded_layout') or not c[3] or c[3][0] != ('path', [child]):
             raise Refuse('hidden loop: tree.%s' % c[2])
+    flex_loops(ftoks, variants, w, fps)
     return '\n'.join(out) + '\n', fps
+
+
+FLEX_NODE_CALLS = ('perform_child_layout', 'measure_child_size', 'set_unrounded_layout', 'compute_child_layout', 'get_flexbox_child_style')
+# functions of flexbox.rs whose tree calls must address `<loop variable>.node` (a FlexItem)
+FLEX_ITEM_FNS = ('determine_flex_base_size', 'determine_container_main_size', 'determine_hypothetical_cross_size',
+                 'calculate_children_base_lines', 'determine_used_cross_size', 'calculate_flex_item')
+CANONICAL_HIDDEN_ARGS = [('path', ['Size', 'NONE']), ('path', ['Size', 'NONE']), ('path', ['Size', 'MAX_CONTENT']),
+                         ('path', ['SizingMode', 'InherentSize']), ('path', ['Line', 'FALSE'])]
+
+
+def tree_calls(a, names):
+    return find_all(a, lambda n: n[0] == 'mcall' and n[1] == ('path', ['tree']) and n[2] in names)
+
+
+def flex_loops(ftoks, variants, w, fps):
+    """compute_preliminary's hidden-children loop, the loop of perform_absolute_layout_on_absolute_children, and a scan of EVERY call on
+    `tree` in flexbox.rs: which node it addresses (Model/FlexAlg.v turns exactly these into Query / SetLayout)."""
+    # ---- the hidden loop
+    _, body, _ = find_fn(ftoks, 'compute_preliminary')
+    pblk = parse_block(body)
+    fors = [st[1] for st in pblk[1] if st[0] == 'expr' and st[1][0] == 'for' and st[1][2][0] == 'range']
+    if len(fors) != 1:
+        raise Refuse('compute_preliminary: expected exactly one top-level `for .. in 0..` loop (hidden children), found %d' % len(fors))
+    hp, hit, hbody = fors[0][1], fors[0][2], fors[0][3]
+    if hp[0] != 'pident' or hit[1] != ('lit', '0'):
+        raise Refuse('flex hidden loop header')
+    order = hp[1]
+    if len(hbody[1]) + (1 if hbody[2] is not None else 0) != 2 or hbody[1][0][0] != 'let' or hbody[1][0][1][0] != 'pident':
+        raise Refuse('flex hidden loop body')
+    child = hbody[1][0][1][1]
+    if hbody[1][0][2] != ('mcall', ('path', ['tree']), 'get_child_id', [('path', ['node']), ('path', [order])]):
+        raise Refuse('flex hidden loop: child is not tree.get_child_id(node, %s)' % order)
+    hif = hbody[2] if hbody[2] is not None else hbody[1][1][1]
+    if hif[0] != 'if' or hif[3] is not None:
+        raise Refuse('flex hidden loop: if')
+    fps['flexbox::hidden_pass'] = repr(fors[0])
+    w('Definition flex_hidden_pass_visits (child_box_generation_mode : GBoxGenerationMode) (child_position : GPosition) : bool :=\n  %s.'
+      % Pred(variants, child_ident=child).b(hif[1]))
+    calls = tree_calls(hif[2], FLEX_NODE_CALLS)
+    if [c[2] for c in calls] != ['perform_child_layout', 'set_unrounded_layout']:
+        raise Refuse('flex hidden loop: expected perform_child_layout then set_unrounded_layout, found %s' % [c[2] for c in calls])
+    for c in calls:
+        if not c[3] or c[3][0] != ('path', [child]):
+            raise Refuse('flex hidden loop: tree.%s is not addressed to the child' % c[2])
+    if calls[0][3][1:] != CANONICAL_HIDDEN_ARGS:
+        raise Refuse('flex hidden loop: perform_child_layout is not called with (NONE, NONE, MAX_CONTENT, InherentSize, FALSE)')
+    if calls[1][3][1] != ('un', '&', ('call', ('path', ['Layout', 'with_order']), [('cast', ('path', [order]), 'u32')])):
+        raise Refuse('flex hidden loop: the stored layout is not &Layout::with_order(%s as u32)' % order)
+    w('(* checked syntactically: the body of that `if` is tree.perform_child_layout(child, Size::NONE, Size::NONE, Size::MAX_CONTENT,')
+    w('   SizingMode::InherentSize, Line::FALSE) followed by tree.set_unrounded_layout(child, &Layout::with_order(order as u32)) *)')
+    w('Definition flex_hidden_pass_is_canonical : bool := true.')
+    # ---- the absolute pass
+    _, body, _ = find_fn(ftoks, 'perform_absolute_layout_on_absolute_children')
+    ablk = parse_block(body)
+    afors = find_all(ablk, lambda n: n[0] == 'for')
+    if len(afors) != 1:
+        raise Refuse('flex absolute pass: expected exactly one for loop')
+    ap, ait, abody = afors[0][1], afors[0][2], afors[0][3]
+    if ap[0] != 'pident' or ait[0] != 'range' or ait[1] != ('lit', '0') or \
+            ait[2] != ('mcall', ('path', ['tree']), 'child_count', [('path', ['node'])]):
+        raise Refuse('flex absolute pass: loop header is not `for order in 0..tree.child_count(node)`')
+    aorder = ap[1]
+    st = abody[1]
+    if len(st) < 3 or st[0][0] != 'let' or st[0][1][0] != 'pident' or \
+            st[0][2] != ('mcall', ('path', ['tree']), 'get_child_id', [('path', ['node']), ('path', [aorder])]):
+        raise Refuse('flex absolute pass: first statement is not `let child = tree.get_child_id(node, order)`')
+    achild = st[0][1][1]
+    if st[1][0] != 'let' or st[1][1][0] != 'pident' or \
+            st[1][2] != ('mcall', ('path', ['tree']), 'get_flexbox_child_style', [('path', [achild])]):
+        raise Refuse('flex absolute pass: second statement is not `let child_style = tree.get_flexbox_child_style(child)`')
+    astyle = st[1][1][1]
+    sk = st[2]
+    if not (sk[0] == 'expr' and sk[1][0] == 'if' and sk[1][3] is None):
+        raise Refuse('flex absolute pass: third statement is not `if .. { continue; }`')
+    th = sk[1][2]
+    if not (len(th[1]) == 1 and th[2] is None and th[1][0][0] == 'expr' and th[1][0][1][0] == 'continue'):
+        raise Refuse('flex absolute pass: the skip branch is not `continue;`')
+    fps['flexbox::absolute_pass_skip'] = repr(sk[1][1])
+    w('Definition flex_absolute_pass_skips {S : Type} (position : S -> GPosition) (box_generation_mode : S -> GBoxGenerationMode) (%s : S) : bool :=\n  %s.'
+      % (astyle, Pred(variants, style_idents=(astyle,)).b(sk[1][1])))
+    for c in tree_calls(st[3:] + ([abody[2]] if abody[2] is not None else []), FLEX_NODE_CALLS):
+        if not c[3] or c[3][0] != ('path', [achild]):
+            raise Refuse('flex absolute pass: tree.%s is not addressed to the child' % c[2])
+    acalls = [c[2] for c in tree_calls(st[3:], ('perform_child_layout', 'measure_child_size', 'set_unrounded_layout', 'compute_child_layout'))]
+    if acalls != ['perform_child_layout', 'set_unrounded_layout']:
+        raise Refuse('flex absolute pass: expected one perform_child_layout then one set_unrounded_layout per child, found %s' % acalls)
+    # ---- every other call on `tree` that reaches a node: only in the item functions, addressed to `<item>.node`
+    names = [ftoks[i + 1][1] for i in range(len(ftoks) - 1) if ftoks[i] == ('id', 'fn') and ftoks[i + 1][0] == 'id']
+    seen = []
+    for fn in names:
+        try:
+            _, body, _ = find_fn(ftoks, fn)
+        except ParseError:
+            continue
+        calls = tree_calls(parse_block(body), FLEX_NODE_CALLS)
+        if fn in ('compute_preliminary', 'perform_absolute_layout_on_absolute_children'):
+            continue            # checked above (compute_preliminary has no other node call: see below)
+        if fn == 'generate_anonymous_flex_items':
+            continue            # the translated pipeline
+        for c in calls:
+            if fn not in FLEX_ITEM_FNS:
+                raise Refuse('flexbox.rs: tree.%s in fn %s, which the resumption does not model' % (c[2], fn))
+            a0 = c[3][0] if c[3] else None
+            if not (a0 and a0[0] == 'field' and a0[1][0] == 'path' and len(a0[1][1]) == 1 and a0[2] == 'node'):
+                raise Refuse('flexbox.rs: tree.%s in fn %s is not addressed to `<item>.node`' % (c[2], fn))
+            seen.append('%s:%s' % (fn, c[2]))
+    _, body, _ = find_fn(ftoks, 'compute_preliminary')
+    pcalls = [c[2] for c in tree_calls(parse_block(body), FLEX_NODE_CALLS)]
+    if pcalls != ['perform_child_layout', 'get_flexbox_child_style', 'set_unrounded_layout'] and \
+            sorted(pcalls) != sorted(['get_flexbox_child_style', 'perform_child_layout', 'set_unrounded_layout']):
+        raise Refuse('compute_preliminary: node calls outside the hidden loop: %s' % pcalls)
+    fps['flexbox::tree_calls'] = ' '.join(seen)
+    w('(* checked syntactically: every call of flexbox.rs on `tree` that addresses a node (%s) is' % ' '.join(FLEX_NODE_CALLS))
+    w('   in the translated item pipeline, in the hidden loop, in the absolute pass (addressed to that loop\'s child), or in one of the item')
+    w('   functions, addressed to `<item>.node`: %s *)' % ' '.join(seen))
+    w('Definition flex_tree_calls_address_item_only : bool := true.')
 
 
 TARGETS = {'FiltersGen.v': generate}
